@@ -490,6 +490,12 @@ func run(tier, unit string, r *vlib.Rec) {
 		minimalDone := map[string][]int{}
 		hung := map[string]bool{}
 		for _, c := range cmds {
+			// files with two or more faults: the reduced command set (every command and option value, but
+			// query results in the json and csv formats only and publishing with one job; the full set
+			// runs on the base document and on every single fault)
+			if len(set) >= 2 && tier != "thorough" && reducedOut(c) {
+				continue
+			}
 			if hung[c.Kind] {
 				r.Count("skipped-after-hang")
 				continue // this command kind already hung on this file; do not wait for every variant
@@ -526,6 +532,20 @@ func run(tier, unit string, r *vlib.Rec) {
 			}
 		}
 	}
+}
+
+func reducedOut(c command) bool {
+	if strings.HasPrefix(c.Kind, "query-") && c.Kind != "query-json" && c.Kind != "query-csv" {
+		return true
+	}
+	if strings.HasPrefix(c.Kind, "publish-") {
+		for i, a := range c.Args {
+			if a == "-jobs" && i+1 < len(c.Args) && c.Args[i+1] == "2" {
+				return true
+			}
+		}
+	}
+	return false
 }
 
 func plan(tier string) []string {
@@ -570,6 +590,7 @@ func main() {
 		Assumptions: []string{
 			"exit status 0, or 1 with an ERROR: line, is a proper end; 'panic:', 'fatal error:' or a goroutine dump on stderr is a crash; 20 s without exit is a hang (the commands take ~10 ms)",
 			"quick tier uses 8 of the 64 page-group switch sets (none, all, each single one); thorough uses all 64",
+			"quick tier: files with two faults run the reduced command set (query results in json and csv only, publishing with one job); the full set runs on the base document and every single fault, and on everything in the thorough tier",
 			"crash signatures carry the command kind, the innermost repository frame, the message class and the minimal fault subset that reproduces it",
 		},
 		Plan:       plan,
